@@ -20,7 +20,7 @@ ASSUMPTIONS = ['reference predicates in pbt/props/c08.py evaluated on Python num
                'plain ndarray masking']
 BUDGET = {
     'quick': dict(examples=6000, time_s=240),
-    'thorough': dict(examples=200000, time_s=1500),
+    'thorough': dict(examples=200000, time_s=1500, fuzz=dict(workers=8, runs=6000, max_s=300)),
 }
 
 
@@ -56,7 +56,7 @@ def _container(draw, thresholds, min_n=0, max_n=60, positive=False):
     if kind.startswith('sample'):
         # every other channel of a sample has twice the range (see _materialise): move its top values along
         cells = [[(v + R if (j % 2 == 1 and v in (R - 2, R - 1)) else v) for j, v in enumerate(row)] for row in cells]
-    names = list(draw(st.permutations([n for n in NAME_POOL if n != 'Time']))[:D])
+    names = draw(st.lists(st.sampled_from([n for n in NAME_POOL if n != 'Time']), min_size=D, max_size=D, unique=True))
     return dict(kind=kind, D=D, R=R, cells=cells, names=names,
                 derived=draw(st.sampled_from([None, None, None, ['slice', 1], ['list', 2], ['perm', 1], ['permname', 2]])))
 
